@@ -70,7 +70,8 @@ def generate(streams, tier):
         if r < 0.6:
             local.append(["next"])
         elif r < 0.85:
-            local.append(["set", rng.choice([0, 1, 9, 240, 252, 253, 1756, rng.randrange(0, 70000)])])
+            local.append(["set", rng.choice([0, 1, 9, 240, 252, 253, 1756, rng.randrange(0, 70000),
+                                             -1, -8, -13, rng.randrange(-300, 0)])])   # from_init_values(0, 5) is -8
         else:
             local.append(["next_during_outage"])
     return {"script": script, "local": local, "net_seed": rng.randrange(1 << 30), "draw_seed": rng.randrange(1 << 30),
